@@ -74,6 +74,15 @@ ASSUMPTIONS = [
     "assignment, printing) is made from functions whose local and global names all start with an "
     "underscore (no column / namespace name of the pool does): the caller-scope lookup of "
     "design_matrices (env=0) sees no harness variable",
+    "builds through a caller-owned Environment: every history owns ONE `Environment.capture()` object "
+    "(captured in the underscore-only scope the library is called from); build ops with a 4th element "
+    "pass it as `env=` together with an extra_namespace made for that build (the history's namespace "
+    "plus one of 4 bindings of the callee `fn` and the argument `off` to different objects), for three "
+    "formulas that use these names and for the other formulas of the pool; exhaustive short histories "
+    "(pool 'env') and random ones mixing plain and such builds (pool 'fullenv'); every output is "
+    "compared with a fresh process (which owns a never-used Environment), and after every operation "
+    "the caller's Environment object (number and identity of its namespaces, names and objects they "
+    "bind) and the extra_namespace dicts handed in are compared with what they were",
     "absence of writes to arrays/DataFrames already returned, object aliasing (shared Term objects, "
     "shared slices dict), the Polynomial memo dictionaries and the TRANSFORMS registry are outside "
     "the model: they are covered only by the snapshot checks of this harness and by the translator "
@@ -106,8 +115,33 @@ FORMULAS = [
     ("y ~ C(f, enc_s) + C(g, enc_t):x", False),
     ("y ~ 0 + C(h, enc_t) + (C(g, enc_s) | h)", False),
     ("y ~ C(f, enc_t) + C(g, enc_t)", False),
+    # names that only the `extra_namespace` of ONE build binds (a callee `fn`, an argument `off`):
+    # built through the caller-owned Environment object (`env=`), see BINDINGS
+    ("y ~ fn(x) + f", False),
+    ("y ~ I(x + off) + (fn(z) | g)", False),
+    ("y ~ 0 + h:fn(x + off) + center(z)", False),
 ]
 ENC_FORMULAS = [8, 9, 10, 11]
+N_PLAIN = 12                # formulas 0..11 need no binding
+BOUND_FORMULAS = [12, 13, 14]
+
+
+def _fn_double(v):
+    return v * 2
+
+
+def _fn_negate(v):
+    return -v
+
+
+def _fn_square(v):
+    return v * v
+
+
+# what one build adds to its `extra_namespace` (besides the caller's namespace of the history): the
+# same names bound to different objects per build
+BINDINGS = [{"fn": _fn_double, "off": 1}, {"fn": _fn_negate, "off": 5}, {"fn": _fn_square, "off": -2},
+            {"fn": _fn_double, "off": 5}]
 N_BASE = 6                  # frames 0..5 have every column; frame 6 + i has exactly the columns of formula i
 
 
@@ -121,10 +155,16 @@ POOLS = {
     "small": ([0, 1, 2], [0, 1], [0, 1], ["error", "silent"], False),
     # frames with missing values in used columns; 4: with unused columns, 6 + i: without
     "na": ([0, 3, 4], [4], [1, 4], ["silent"], True),
-    "full": (list(range(len(FORMULAS))), [0, 1, 2, 4, 5], [0, 1, 2, 3, 4, 5], MODES, True),
+    "full": (list(range(N_PLAIN)), [0, 1, 2, 4, 5], [0, 1, 2, 3, 4, 5], MODES, True),
     # formulas naming the caller's encoding objects, built on frames whose first levels differ
     "enc": (ENC_FORMULAS, [0, 1, 2], [0, 1], ["silent"], False),
+    # builds that pass ONE caller-owned Environment object as `env=` together with an extra_namespace
+    # that differs from build to build (a build op then has a 4th element: the index into BINDINGS)
+    "env": (BOUND_FORMULAS[:2], [0], [0, 1], ["silent"], False),
+    "fullenv": (list(range(len(FORMULAS))), [0, 1, 2, 4], [0, 1, 2, 3], MODES, False),
 }
+# pools whose builds go through the caller-owned Environment: the bindings they draw from
+POOL_BINDINGS = {"env": [0, 1, 2], "fullenv": [0, 1, 2, 3]}
 
 
 # evaluations of projected designs on frames with missing values: compared with the model?
@@ -247,6 +287,13 @@ def _deep(v, depth=0):
 
 def namespace_state(ns):
     return tuple((k, _deep(v)) for k, v in ns.items())
+
+
+def environment_state(env):
+    """what a caller can see of an Environment object it owns: per namespace (in lookup order) the
+    names bound and the identity of the objects bound to them"""
+    return tuple(tuple((str(k), id(v)) for k, v in dict(space).items())
+                 for space in getattr(env, "_namespaces", ()))
 
 
 # ------------------------------------------------------------------------------------------------
@@ -512,6 +559,14 @@ def _lib_build(_lib, _formula, _frame, _names):
     return _lib.design_matrices(_formula, _frame, extra_namespace=_names)
 
 
+def _lib_build_env(_lib, _formula, _frame, _names, _environment):
+    return _lib.design_matrices(_formula, _frame, env=_environment, extra_namespace=_names)
+
+
+def _lib_capture(_environment_class):
+    return _environment_class.capture()
+
+
 def _lib_describe(_lib, _formula):
     return _lib.model_description(_formula)
 
@@ -527,17 +582,18 @@ def _lib_set_config(_lib, _key, _value):
 def _lib_show(_object):
     return str(_object), repr(_object)
 ''', _LIB_SCOPE)
-_lib_build, _lib_describe, _lib_evaluate, _lib_set_config, _lib_show = (
+_lib_build, _lib_describe, _lib_evaluate, _lib_set_config, _lib_show, _lib_build_env, _lib_capture = (
     _LIB_SCOPE[_n] for _n in ("_lib_build", "_lib_describe", "_lib_evaluate", "_lib_set_config",
-                              "_lib_show"))
+                              "_lib_show", "_lib_build_env", "_lib_capture"))
 
 
 def _scope_is_clean(frames, ns):
     """no name a formula could look up (columns of the pool, names of the caller's namespace) is a
     local or global name of the functions that call the library"""
-    pool = set(ns) | {str(c) for fr in frames for c in fr.columns}
+    pool = set(ns) | {str(c) for fr in frames for c in fr.columns} | {n for b in BINDINGS for n in b}
     visible = {n for n in _LIB_SCOPE if n != "__builtins__"}
-    for fn in (_lib_build, _lib_describe, _lib_evaluate, _lib_set_config, _lib_show):
+    for fn in (_lib_build, _lib_describe, _lib_evaluate, _lib_set_config, _lib_show, _lib_build_env,
+               _lib_capture):
         visible |= set(fn.__code__.co_varnames)
     return not (pool & visible) and all(n.startswith("_") for n in visible)
 
@@ -563,7 +619,15 @@ class Proc:
         # deep attribute state of every object bound in the namespace (before any operation)
         self.ns_state = namespace_state(self.ns)
         self.check = check
-        self.designs = []          # (dm, formula_idx, frame_idx, training snapshot, internal snapshot)
+        # ONE Environment object owned by the caller (captured in the scope the library is called
+        # from), handed as `env=` to every build op that carries a binding
+        from formulae.environment import Environment as _Environment
+        self.env = _lib_capture(_Environment)
+        self.env_state = environment_state(self.env)
+        self.env_spaces = list(self.env._namespaces)          # the namespace objects themselves
+        self.extras = []           # (extra_namespace dict handed to a build, its items at that time)
+        # (dm, formula_idx, frame_idx, training snapshot, internal snapshot, binding or None)
+        self.designs = []
         self.results = []          # (object, copy of its matrix, slices)
         self.config = None         # last successfully set value (None: never set in this history)
         self.flags = []            # (op position, name, ok)
@@ -599,10 +663,20 @@ class Proc:
             rel = (None, None)
         elif kind == "b":
             formula, df = FORMULAS[op[1]][0], self.frames[op[2]]
+            binding = op[3] if len(op) > 3 else None
+
+            def _build():
+                if binding is None:
+                    return _lib_build(lib, formula, df, self.ns)
+                # the caller's own Environment object as `env=`, and an extra_namespace of this build
+                extra = dict(self.ns, **BINDINGS[binding])
+                if self.check:
+                    self.extras.append((extra, list(extra.items())))
+                return _lib_build_env(lib, formula, df, extra, self.env)
             try:
                 with warnings.catch_warnings():
                     warnings.simplefilter("ignore")
-                    dm = _lib_build(lib, formula, df, self.ns)
+                    dm = _build()
                 out = canon_build(dm)
             except Exception as e:  # noqa
                 dm, out = None, {"t": "raised", "cls": type(e).__name__}
@@ -611,7 +685,7 @@ class Proc:
                 try:
                     with warnings.catch_warnings():
                         warnings.simplefilter("ignore")
-                        dm2 = _lib_build(lib, formula, df, self.ns)
+                        dm2 = _build()
                     out2 = canon_build(dm2)
                 except Exception as e:  # noqa
                     out2 = {"t": "raised", "cls": type(e).__name__}
@@ -628,7 +702,7 @@ class Proc:
             if dm is not None:
                 self.designs.append((dm, op[1], op[2],
                                      training_snapshot(dm) if self.check else None,
-                                     internal_snapshot(dm) if self.check else None))
+                                     internal_snapshot(dm) if self.check else None, binding))
                 if self.check:
                     self.show(pos, dm.response, dm.common, dm.group)
             rel = (None, op[2])
@@ -689,6 +763,15 @@ class Proc:
         self.flag(pos, "attribute state of the objects in the caller's namespace unchanged (incl. "
                        "caller-owned Treatment() / Sum() instances named by the formulas)",
                   namespace_state(self.ns) == self.ns_state)
+        spaces = getattr(self.env, "_namespaces", None)
+        self.flag(pos, "caller's Environment object unchanged (number and identity of its namespaces, "
+                       "the names they bind and the objects bound)",
+                  isinstance(spaces, list) and len(spaces) == len(self.env_spaces)
+                  and all(a is b for a, b in zip(spaces, self.env_spaces))
+                  and environment_state(self.env) == self.env_state)
+        self.flag(pos, "extra_namespace dicts handed to design_matrices unchanged",
+                  all(len(d) == len(items) and all(k in d and d[k] is v for k, v in items)
+                      for d, items in self.extras[-6:]))
 
     def finish(self, pos):
         if self.check:
@@ -706,11 +789,11 @@ def fresh_key(proc, op):
     if op[0] == "s":
         return ("s", op[1], op[2])
     if op[0] == "b":
-        return ("b", op[1], op[2])
+        return ("b", op[1], op[2]) + tuple(op[3:4])
     if op[1] >= len(proc.designs):
         return ("n",)
     d = proc.designs[op[1]]
-    return (op[0], d[1], d[2], proc.config, op[2])
+    return (op[0], d[1], d[2], proc.config, op[2]) + (() if d[5] is None else (d[5],))
 
 
 def key_ops(key):
@@ -718,13 +801,13 @@ def key_ops(key):
     if key[0] == "s":
         return [("s", key[1], key[2])]
     if key[0] == "b":
-        return [("b", key[1], key[2])]
+        return [("b", key[1], key[2]) + tuple(key[3:4])]
     if key[0] == "n":
         return [("c", 0, 0)]
     ops = []
     if key[3] is not None:
         ops.append(("s", CONFIG_KEY, key[3]))
-    ops.append(("b", key[1], key[2]))
+    ops.append(("b", key[1], key[2]) + tuple(key[5:6]))
     ops.append((key[0], 0, key[4]))
     return ops
 
@@ -891,6 +974,8 @@ def enumerate_histories(pool, max_len):
 
     def ext(built):
         ops = [("b", f, d) for f in fidx for d in bidx + ([tight_index(f)] if tight else [])]
+        if pool in POOL_BINDINGS:
+            ops = [o + (k,) for o in ops for k in POOL_BINDINGS[pool]]
         ops += [("s", CONFIG_KEY, c) for c in cfgs]
         ops += [(kind, i, d) for i, f in enumerate(built)
                 for d in eidx + ([tight_index(f)] if tight else []) for kind in ("c", "g")]
@@ -939,6 +1024,33 @@ def random_history(rng, pool, max_len):
                 h.append(("s", "NO_SUCH_OPTION", "error"))
             else:
                 h.append(("s", CONFIG_KEY, rng.choice(cfgs)))
+    return h
+
+
+def random_env_history(rng, pool, max_len):
+    """like `random_history`; builds of the formulas that need a binding always go through the
+    caller-owned Environment object, the other formulas do so half of the time; names used by two
+    designs of one history are mostly bound to different objects"""
+    fidx, bidx, eidx, cfgs, _ = POOLS[pool]
+    n = rng.randrange(2, max_len + 1)
+    h, k = [], 0
+    if rng.random() < 0.3:
+        h.append(("s", CONFIG_KEY, rng.choice(cfgs[1:] or cfgs)))
+    for _ in range(n - len(h)):
+        u = rng.random()
+        if k == 0 or u < 0.45:
+            f = rng.choice(BOUND_FORMULAS) if rng.random() < 0.7 else rng.choice(fidx)
+            d = rng.choice(bidx)
+            if f in BOUND_FORMULAS or rng.random() < 0.5:
+                h.append(("b", f, d, rng.choice(POOL_BINDINGS[pool])))
+            else:
+                h.append(("b", f, d))
+            k += 1
+        elif u < 0.9:
+            i = rng.randrange(k) if rng.random() < 0.5 else max(0, k - 1 - rng.randrange(min(k, 3)))
+            h.append((rng.choice(["c", "c", "g"]), i, rng.choice(eidx)))
+        else:
+            h.append(("s", CONFIG_KEY, rng.choice(cfgs)))
     return h
 
 
@@ -1084,6 +1196,9 @@ def explore(tier, seed, res=None, replay=None):
                 "x %d frames (4 complete ones, 2 with missing values in used columns, and per formula "
                 "one that has exactly the formula's columns, with missing values) x 3 config values; "
                 "four of the formulas name caller-owned Treatment() / Sum() instances of the namespace; "
+                "three name a callee / an argument that only the extra_namespace of one build binds and "
+                "are built through ONE caller-owned Environment object (env=) per history, with a "
+                "different binding per build; "
                 "non-trivial = a history with >= 2 operations in which an evaluation returned a "
                 "matrix; distinct by operation sequence" % (len(FORMULAS), N_BASE + len(FORMULAS)))
     frames = make_frames(seed)
@@ -1112,6 +1227,18 @@ def explore(tier, seed, res=None, replay=None):
         for i in range(n_rand):
             batches.append(("full", random_history(rng_for(seed, "c07", "hist", i), "full", max_len)))
         res.count("random histories (pool 'full', length <= %d)" % max_len, n_rand)
+        env_hist = enumerate_histories("env", exh_len - 1)
+        for h in env_hist:
+            batches.append(("env", h))
+        res.count("exhaustive histories (pool 'env': builds through ONE caller-owned Environment object "
+                  "with an extra_namespace per build binding `fn` / `off` to different objects, length "
+                  "<= %d)" % (exh_len - 1), len(env_hist))
+        n_env, env_len = (60, 8) if tier == "quick" else (800, 16)
+        for i in range(n_env):
+            batches.append(("fullenv", random_env_history(rng_for(seed, "c07", "envhist", i),
+                                                          "fullenv", env_len)))
+        res.count("random histories (pool 'fullenv': plain builds and builds through the caller-owned "
+                  "Environment object, length <= %d)" % env_len, n_env)
     histories = [h for _, h in batches]
 
     # ---- run them: one process (quick) / a few long-lived worker processes (thorough)
@@ -1287,6 +1414,9 @@ def _judge(tier, seed, res, replay, frames, batches, runs, fresh, keys, zy, n_wo
         return {"case": {"ops": [list(o) for o in ops], "pool": pool,
                          "formulas": {i: FORMULAS[i][0] for i in sorted({o[1] for o in ops
                                                                          if o[0] == "b"})},
+                         "bindings": {int(o[3]): {k: getattr(v, "__name__", v)
+                                                  for k, v in BINDINGS[o[3]].items()}
+                                      for o in ops if o[0] == "b" and len(o) > 3},
                          "frames": {i: {"rows": int(len(frames[i])), "columns": list(frames[i].columns),
                                         "missing_values_in": [c for c in frames[i].columns
                                                               if bool(frames[i][c].isna().any())]}
